@@ -340,7 +340,11 @@ class Network:
                                   or self.services_per_peer.pop(peer.public_key.key_to_bin(), None) == 0}
             removed_peers = self.verified_peers - new_verified_peers
             self.verified_peers = new_verified_peers
+            self.reverse_ip_lookup.pop(address, None)
             for peer in removed_peers:
+                for peer_address in [peer_address for peer_address, cached in self.reverse_ip_lookup.items()
+                                     if cached == peer]:
+                    self.reverse_ip_lookup.pop(peer_address, None)
                 self.verified_by_public_key_bin.pop(peer.public_key.key_to_bin(), None)
                 list(map(methodcaller("on_peer_removed", peer), self.peer_observers))
 
@@ -353,6 +357,8 @@ class Network:
         with self.graph_lock:
             for address in peer.addresses.values():
                 self._all_addresses.pop(address, None)
+            for address in [address for address, cached in self.reverse_ip_lookup.items() if cached == peer]:
+                self.reverse_ip_lookup.pop(address, None)
             if peer in self.verified_peers:
                 self.verified_peers.remove(peer)
                 list(map(methodcaller("on_peer_removed", peer), self.peer_observers))
